@@ -4,6 +4,7 @@ package c02
 import (
 	"fmt"
 	"math"
+	"math/big"
 
 	"github.com/golang/geo/r3"
 	"github.com/golang/geo/s1"
@@ -636,10 +637,204 @@ func checkOrderedCCW(c abco) ev.Outcome {
 	return out
 }
 
+// ---------------------------------------------------------------- triage band (directed)
+
+// nbhd: a, b and a point c0 on (or next to) their great circle; the Check
+// enumerates the whole lattice of ±3-ulp perturbations of c0 (343 points), so
+// that many triples have a floating-point determinant right at the triage
+// threshold, where a too-small error constant gives a wrong certain answer.
+type nbhd struct{ A, B, C gen.P }
+
+func genNbhd(t *rapid.T) nbhd {
+	// all three coordinates substantial: the rounding error of the determinant is largest there
+	bigPt := func(label string) s2.Point {
+		co := func(l string) float64 {
+			v := 0.3 + 0.45*float64(rapid.Uint32().Draw(t, l))/float64(math.MaxUint32)
+			if rapid.Bool().Draw(t, l+"s") {
+				v = -v
+			}
+			return v
+		}
+		return gen.Fix(s2.Point{Vector: r3.Vector{X: co(label + "x"), Y: co(label + "y"), Z: co(label + "z")}.Normalize()}, s2.Point{Vector: r3.Vector{X: 1}})
+	}
+	a := bigPt("a")
+	var b s2.Point
+	switch rapid.IntRange(0, 3).Draw(t, "bkind") {
+	case 0:
+		b = gen.Related(t, "b", []s2.Point{a})
+	case 1:
+		b = bigPt("b")
+	default:
+		// roughly perpendicular to a: |a×b| ≈ 1 maximises the absolute rounding error
+		r := bigPt("r")
+		b = gen.Fix(s2.Point{Vector: a.Cross(r.Vector).Normalize()}, r)
+	}
+	if b == a || b.Vector == a.Mul(-1) {
+		b = bigPt("b2")
+	}
+	// c0 on the great circle of (a,b). In half of the cases its position is
+	// chosen adversarially: the rounding error dn of the float cross product
+	// n = a×b is computed exactly, and c0 is aligned with the component of dn in
+	// the plane of the great circle, which maximises the error dn·c of the
+	// float determinant (n+dn)·c at a point where the exact determinant is ~0.
+	th := rapid.Float64Range(-math.Pi, math.Pi).Draw(t, "th")
+	bp := a.Cross(b.Vector).Cross(a.Vector).Normalize()
+	c := gen.Fix(s2.Point{Vector: a.Mul(math.Cos(th)).Add(bp.Mul(math.Sin(th))).Normalize()}, a)
+	if rapid.Bool().Draw(t, "adversarial") {
+		nf := a.Cross(b.Vector)
+		vs, e := exact.IntVecs(a.Vector, b.Vector)
+		ne := exact.Cross(vs[0], vs[1]) // exact a×b, scaled by 2^(2e)
+		var dn r3.Vector
+		for i, comp := range []float64{nf.X, nf.Y, nf.Z} {
+			x := new(big.Float).SetPrec(400).SetInt(ne[i])
+			x.SetMantExp(x, 2*e)
+			d, _ := new(big.Float).SetPrec(400).Sub(new(big.Float).SetPrec(400).SetFloat64(comp), x).Float64()
+			switch i {
+			case 0:
+				dn.X = d
+			case 1:
+				dn.Y = d
+			default:
+				dn.Z = d
+			}
+		}
+		nh := nf.Normalize()
+		inPlane := dn.Sub(nh.Mul(dn.Dot(nh)))
+		if inPlane.Norm2() > 0 {
+			sgn := 1.0
+			if rapid.Bool().Draw(t, "flip") {
+				sgn = -1
+			}
+			c = gen.Fix(s2.Point{Vector: inPlane.Mul(sgn).Normalize()}, c)
+		}
+	}
+	return nbhd{gen.FromPt(a), gen.FromPt(b), gen.FromPt(c)}
+}
+
+func checkTriageBand(c nbhd) ev.Outcome {
+	a, b, c0 := c.A.Pt(), c.B.Pt(), c.C.Pt()
+	o := ev.Outcome{Counts: map[string]int{}}
+	if !strictlyUnit(a, b, c0) || a == b {
+		o.Skip = true
+		return o
+	}
+	worst := 0.0
+	for dx := -3; dx <= 3; dx++ {
+		for dy := -3; dy <= 3; dy++ {
+			for dz := -3; dz <= 3; dz++ {
+				cc := s2.Point{Vector: r3.Vector{X: gen.Ulps(c0.X, dx), Y: gen.Ulps(c0.Y, dy), Z: gen.Ulps(c0.Z, dz)}}
+				if !gen.Unit(cc) {
+					continue
+				}
+				o.Counts["lattice_points"]++
+				tri := int(s2.VerifTriageSign(a, b, cc))
+				det := a.Cross(b.Vector).Dot(cc.Vector)
+				if math.Abs(det) > 2e-15 {
+					continue // far above any plausible threshold: covered by the sign sub-check
+				}
+				o.Counts["near_threshold"]++
+				ex := exact.DetSign(a.Vector, b.Vector, cc.Vector)
+				if tri != 0 {
+					o.Counts["triage_decided_near_threshold"]++
+					if tri != ex {
+						o.Err = fmt.Sprintf("triageSign=%d with float determinant %.4g, but the exact determinant sign is %d (c = c0 %+d,%+d,%+d ulps)", tri, det, ex, dx, dy, dz)
+						return o
+					}
+				}
+				if got := int(s2.RobustSign(a, b, cc)); ex != 0 && got != ex {
+					o.Err = fmt.Sprintf("RobustSign=%d, exact determinant sign %d (float determinant %.4g; c = c0 %+d,%+d,%+d ulps)", got, ex, det, dx, dy, dz)
+					return o
+				}
+				if ex == 0 {
+					if r := math.Abs(det) / (1.8274 * 0x1p-52); r > worst {
+						worst = r
+					}
+				}
+			}
+		}
+	}
+	o.NonTrivial = o.Counts["near_threshold"] > 0
+	o.Ratios = map[string]float64{"abs_float_det_when_exact_zero/maxDeterminantError": worst}
+	return o
+}
+
+// ---------------------------------------------------------------- triage on identical arguments (directed, bulk)
+
+// With two identical arguments the exact determinant is 0, so any non-zero
+// answer of the floating-point triage stage is wrong and the float
+// determinant IS its rounding error. Each case expands one drawn seed into
+// 2000 point pairs (a pure function of the draws) so that errors near the
+// top of the distribution are reached: a too-small error constant shows up as
+// a certain non-zero sign for a repeated point.
+type bulkPairs struct {
+	Seed uint64
+	N    int
+}
+
+func genBulkPairs(t *rapid.T) bulkPairs {
+	return bulkPairs{Seed: rapid.Uint64().Draw(t, "seed"), N: 2000}
+}
+
+func splitmix(x *uint64) uint64 {
+	*x += 0x9e3779b97f4a7c15
+	z := *x
+	z = (z ^ (z >> 30)) * 0xbf58476d1ce4e5b9
+	z = (z ^ (z >> 27)) * 0x94d049bb133111eb
+	return z ^ (z >> 31)
+}
+
+func unitFrom(x *uint64) s2.Point {
+	for {
+		f := func() float64 { return float64(int64(splitmix(x)>>11))/float64(1<<52) - 1 } // [-1,1)
+		v := r3.Vector{X: f(), Y: f(), Z: f()}
+		if n := v.Norm2(); n > 0.01 && n <= 1 {
+			p := s2.Point{Vector: v.Normalize()}
+			if gen.Unit(p) {
+				return p
+			}
+		}
+	}
+}
+
+func checkBulkIdentical(c bulkPairs) ev.Outcome {
+	o := ev.Outcome{NonTrivial: true, Counts: map[string]int{}}
+	st := c.Seed
+	worst := 0.0
+	for k := 0; k < c.N; k++ {
+		a, b := unitFrom(&st), unitFrom(&st)
+		if a == b {
+			continue
+		}
+		for _, tr := range [][3]s2.Point{{a, b, a}, {a, a, b}, {b, a, a}} {
+			det := tr[0].Cross(tr[1].Vector).Dot(tr[2].Vector)
+			if r := math.Abs(det) / (1.8274 * 0x1p-52); r > worst {
+				worst = r
+			}
+			if g := s2.VerifTriageSign(tr[0], tr[1], tr[2]); g != 0 {
+				o.Err = fmt.Sprintf("triageSign(%v, %v, %v) = %d with two identical arguments (float determinant %.4g, exact determinant 0)", tr[0], tr[1], tr[2], g, det)
+				return o
+			}
+			if g := s2.RobustSign(tr[0], tr[1], tr[2]); g != 0 {
+				o.Err = fmt.Sprintf("RobustSign(%v, %v, %v) = %d with two identical arguments", tr[0], tr[1], tr[2], g)
+				return o
+			}
+		}
+		o.Counts["pairs"]++
+	}
+	o.Ratios = map[string]float64{"abs_float_det_of_repeated_point/maxDeterminantError": worst}
+	return o
+}
+
 func init() {
 	ev.Define("sign", ev.Options{
 		Rule:  "triples from uniform/cube-symmetric/huge-exponent-spread/cell-derived/exactly-coplanar points and relatives (duplicates, same direction, near-duplicates 1e-300..1e-1, antipodes, near great circle, ±4 ulps); oracle = exact integer determinant sign, independent SoS polynomial when it is zero; all 6 permutations; stage soundness via hooks. Non-trivial = not decided by triageSign.",
 		Quick: 600000, Thorough: 18000000}, genTriple, checkSign)
+	ev.Define("triage_band", ev.Options{
+		Rule:  "a, b with all coordinates > 0.25 (largest determinant rounding error) and c0 on their great circle; the Check enumerates all 343 points of the ±3-ulp lattice around c0 and, for every lattice point whose float determinant is below 2e-15, requires a non-zero triageSign to equal the exact determinant sign and RobustSign to equal it too. Directed at error constants that are too small by a small factor. Non-trivial: at least one lattice point near the threshold.",
+		Quick: 60000, Thorough: 2000000}, genNbhd, checkTriageBand)
+	ev.Define("triage_identical_bulk", ev.Options{
+		Rule:  "each case expands one drawn 64-bit seed (splitmix, a pure function of the draw) into 2000 uniformly distributed unit point pairs (a,b); for (a,b,a), (a,a,b), (b,a,a) the exact determinant is 0, so triageSign and RobustSign must be 0; the float determinant is its own rounding error and the worst error/constant ratio is reported. All cases non-trivial.",
+		Quick: 40000, Thorough: 1000000}, genBulkPairs, checkBulkIdentical)
 	ev.Define("sign5_realizable", ev.Options{
 		Rule:  "5-tuples of distinct points (1/3 fully coplanar); the 20 three-term Grassmann–Plücker sign relations on the 10 RobustSign answers. Non-trivial = at least one triple has an exactly zero determinant.",
 		Quick: 100000, Thorough: 3000000}, genFive, checkFive)
